@@ -36,6 +36,20 @@ CLAIMED = {
         technique='Coq proof (case analysis of the fuelled evaluator, path distinctness, store-preservation invariant) + '
                   'differential histories via vm_compute',
         ref='DESIGN.md section 5, C18'),
+    'C19': dict(
+        category='proof',
+        text='Theorems about the TestChain / create_test_task model: if class and parameter values agree and every upstream '
+             'value handed to or computed inside the helper is the denotation of the real upstream, the task yields in the '
+             'helper exactly the denotation it has in the real chain (same `run`, same argument construction as C01); a '
+             'mocked task returns the supplied value and run is never applied to it; a missing/ill-typed parameter and a '
+             'missing input task make the constructor fail. Tied to utils/testing.py by differential runs: random class '
+             'families (inputs by class or name, defaults, optional inputs), a real chain computes every value, those values '
+             'become the mocks of create_test_task / TestChain (keyed by class or by name), results, construction errors, '
+             'files and the run log are compared.',
+        note='helpers persist under the config name `test` (name mode): a fresh base_dir per helper is assumed; run-argument '
+             'binding by name is the same code path as in real chains and is not separately modelled',
+        technique='Coq proof (relational agreement of inputs, congruence of run) + differential correspondence via vm_compute',
+        ref='DESIGN.md section 5, C19'),
     'C02': dict(
         category='proof',
         text='Theorems that the key text (hence the location, C12) is invariant under: permuting parameter declarations, '
